@@ -209,6 +209,19 @@ def protocol_scenarios():
                  inputs=([],)))
     S.append(scn("map-of-empty-maps", SM("M", M=Mp(SM("N", N=Mp(SM("A", A=P(End=True)), End=True)), End=True)), inputs=([[], [1], []],)))
     S.append(scn("par-2step", SM("P", P=Par([chain(("A1", P()), ("A2", T("f"))), chain(("B1", T("g")), ("B2", P()))], Next="Z"), Z=P(End=True))))
+    # data-dependent transitions (Choice): modelled in Engine.tla (RuleHolds / ChoiceNext); every route of each machine is taken
+    xeq = lambda v, nxt: {"Variable": "$.x", "NumericEquals": v, "Next": nxt}
+    S.append(scn("choice-routes", SM("C", C=Ch([xeq(1, "A"), {"Variable": "$.x", "NumericGreaterThan": 5, "Next": "B"}], "D"),
+                                     A=T("f", End=True), B=P(Result="b", End=True), D=Sc()), inputs=({"x": 1}, {"x": 7}, {"x": 3}, {})))
+    S.append(scn("choice-logic", SM("C", C=Ch([{"And": [{"Variable": "$.x", "IsPresent": True}, {"Not": {"Variable": "$.x", "NumericLessThan": 2}}], "Next": "A"},
+                                               {"Or": [{"Variable": "$.y", "StringEquals": "go"}, {"Variable": "$.x", "NumericEquals": 1}], "Next": "B"}], "D"),
+                                    A=T("f", End=True), B=P(End=True), D=Fl("Nope")), inputs=({"x": 2}, {"x": 1}, {"y": "go"}, {"y": "stop"})))
+    S.append(scn("choice-after-task", SM("A", A=T("f", Next="C"), C=Ch([{"Variable": "$.in.x", "NumericEquals": 1, "Next": "G"}, {"Variable": "$.fn", "StringEquals": "f", "Next": "Z"}]),
+                                         G=T("g", End=True), Z=P(End=True)), inputs=({"x": 1}, {"x": 2})))
+    S.append(scn("par-choice", SM("P", P=Par([SM("C", C=Ch([xeq(1, "A")], "A2"), A=T("f", End=True), A2=P(End=True)), SM("B", B=T("g", End=True))], Next="Z"), Z=P(End=True)),
+                 inputs=({"x": 1}, {"x": 2})))
+    S.append(scn("map-choice", SM("M", M=Mp(SM("C", C=Ch([xeq(1, "A")], "A2"), A=T("f", End=True), A2=P(End=True)), End=True)),
+                 inputs=([{"x": 1}, {"x": 2}, {"x": 1}],)))
     S.append(scn("express-chain", chain(("A", T("f")), ("B", P())), typ="EXPRESS"))
     S.append(scn("express-par", SM("P", P=Par([SM("A", A=T("f", End=True)), SM("B", B=P(End=True))], End=True)), typ="EXPRESS"))
     return S
@@ -253,6 +266,20 @@ def failure_scenarios():
     # a nested fan-out event arriving after its enclosing branch was terminated
     S.append(scn("nested-late", SM("P", P=Par([SM("A", A=T("f", End=True)),
                                                chain(("B1", P()), ("B2", Par([SM("C", C=P(End=True)), SM("D", D=P(End=True))])))], End=True)), oracle=boom))
+    # a Choice that matches nothing (States.NoChoiceMatched): alone, inside a branch while a sibling Task is outstanding,
+    # and under a fan-out with a Catch
+    nomatch = Ch([{"Variable": "$.x", "NumericEquals": 1, "Next": "A"}])
+    S.append(scn("choice-nomatch", SM("C", C=nomatch, A=P(End=True)), inputs=({"x": 2}, {})))
+    S.append(scn("par-choice-nomatch", SM("P", P=Par([SM("C", C=nomatch, A=T("f", End=True)), SM("B", B=T("g", End=True))], End=True)), inputs=({"x": 2},)))
+    S.append(scn("par-choice-nomatch-catch", SM("P", P=Par([SM("C", C=nomatch, A=T("f", End=True)), SM("B", B=T("g", End=True))],
+                                                           Catch=[{"ErrorEquals": ["States.NoChoiceMatched"], "Next": "R"}], End=True), R=P(End=True, Result="r")), inputs=({"x": 2},)))
+    S.append(scn("map-choice-nomatch", SM("M", M=Mp(SM("C", C=nomatch, A=T("f", End=True)), End=True)), inputs=([{"x": 1}, {"x": 2}, {"x": 1}],)))
+    # EXPRESS executions that FAIL (Fail state, task error, failing branch, a Choice that matches nothing): no record and no
+    # history may appear on the failure path either
+    S.append(scn("express-failstate", chain(("A", P()), ("F", Fl("E1"))), typ="EXPRESS"))
+    S.append(scn("express-task-fails", chain(("A", T("f")), ("B", P())), oracle=boom, typ="EXPRESS"))
+    S.append(scn("express-par-fail", SM("P", P=Par([SM("A", A=T("f", End=True)), SM("B", B=T("g", End=True))], End=True)), oracle=boom, typ="EXPRESS"))
+    S.append(scn("express-choice-nomatch", SM("C", C=nomatch, A=P(End=True)), inputs=({"x": 2},), typ="EXPRESS"))
     # a Task-level Retry inside a branch
     S.append(scn("par-branch-retry", SM("P", P=Par([SM("A", A=T("f", Retry=[{"ErrorEquals": ["Boom"], "IntervalSeconds": 1, "MaxAttempts": 1}], End=True)),
                                                     SM("B", B=T("g", End=True))], End=True)),
